@@ -829,8 +829,15 @@ TDump ==
                             [keys |-> SetToSeq(dir \ ExpectedDir), at |-> Ev.live])
                      ELSE ObsViol(<<"C11">>, "DirNotExact",
                             [keys |-> SetToSeq((dir \ ExpectedDir) \cup (ExpectedDir \ dir)), at |-> Ev.live])
-                ELSE <<>> IN
-     JudgeAnd(((((b1 \o b2) \o b3) \o c10) \o d10) \o c11)
+                ELSE <<>>
+         \* with no iterator, no snapshot and no call in flight exactly ONE version is linked: a
+         \* superseded version that nobody holds any more but that is still in the list pins its
+         \* files for good (this is not the deferred reclamation of the known finding, where the
+         \* version IS unlinked and only the next deletion pass is missing)
+         leak == IF quiet /\ Ev.live > 1
+                 THEN ObsViol(<<"C11">>, "VersionLeakAtQuiescence", [keys |-> <<Ev.live>>, at |-> Ev.live])
+                 ELSE <<>> IN
+     JudgeAnd((((((b1 \o b2) \o b3) \o c10) \o d10) \o c11) \o leak)
   /\ Step(FALSE, "")
   /\ UNCHANGED <<coreVars, runInfo, keep, lastIter, manNo, isOpen, flushed, gpins, deferred, ackStore, inflight>>
 
